@@ -103,7 +103,8 @@ CHECKS = {
  'C05': dict(
     technique="contract-based deductive verification (pyvc) for the submission-size rule and the helpers shared with C07/C06; exhaustive-search oracle through a table-driven subgrader as bounded stand-in for the numpy/closure-heavy assignment code",
     text="Proved for all configurations: ListGrader.validate_submission returns only when the number of submitted inputs equals the number the configuration expects (grouping length, "
-         "else number of answers) and raises ConfigError otherwise -- so no call can return fewer or more results than inputs; consolidate_grades (used for grouped cost) per C07; the Munkres "
+         "else number of answers) and raises ConfigError otherwise -- so no call can return fewer or more results than inputs; get_padded_lists returns two NEW lists of the longer length that start with the "
+         "original items and are padded with fresh automatic-failure objects (never an item of the other list), without writing its arguments (the cost matrix of the assignment is built from these); consolidate_grades (used for grouped cost) per C07; the Munkres "
          "helpers per C06. NOT proved (bounded only, with an exhaustive-search oracle): positional pairing and siblings in ordered mode, optimal one-to-one assignment for n <= 5 in every input "
          "order, best of 1-3 alternative answer lists, results reported at the position of the input they grade (grouped and nested cases), partial_credit=False zeroing.",
     note="find_optimal_order (nested comprehensions, closure, Munkres), get_ordered_input_list / ListGrader.check (comprehensions over effectful calls), groupify/ungroupify (nested comprehensions) "
@@ -111,13 +112,15 @@ CHECKS = {
     design="6/C05"),
  'C02': dict(
     technique="contract-based deductive verification (pyvc) of format_messages + source scans of the exception family and handler shape (nullary facts); bounded hostile-input runs as stand-in for the evaluator/numpy/pyparsing paths",
-    text="Proved: format_messages only rewrites message fields (strings) and keeps every other key, grade and ok of every entry (all list lengths). Decided exhaustively by scanning the real "
+    text="Proved: ensure_text_inputs (AbstractGrader and ItemGrader), for ANY value of student_input: a value is returned only for a text (single inputs allowed) or a list of texts (lists allowed) -- the text itself, "
+         "or a validated copy of the list -- and every other input (numbers, None, dicts, tuples, lists with a non-text item, a list where a text is required and vice versa) is refused with ConfigError (ValueError only for the "
+         "caller error allow_lists = allow_single = False); format_messages only rewrites message fields (strings) and keeps every other key, grade and ok of every entry (all list lengths). Decided exhaustively by scanning the real "
          "source on every run (facts without inputs; back end 'ast-scan'; an unmatched scan is undecided, never a violation): all library exception classes derive from MITxError (allow-list: the two "
          "internal control-flow exceptions), none overrides the constructor (so error.__class__(text) is well-formed), numpy floating-point errors are routed to Python exceptions at import, and "
          "in AbstractGrader.__call__ self.check(...) runs inside a single `except Exception` whose every path raises (debug: re-raise; MITxError: same class with <br/>; else StudentFacingError). "
          "NOT proved: the contract of AbstractGrader.__call__ is drafted (exsures: with debug off every escaping exception is an MITxError) but z3 times out on 6 of its 49 conditions, so it is "
          "excluded from the counts. Bounded: every grader x hostile strings x non-text objects; termination = 5 s limit per call.",
-    note="Assumed: A10 ensure_text_inputs contract (trusted; exercised by the bounded tier, which corrected an over-strong first version); termination for arbitrary input is not decidable by contracts on this code (A14). "
+    note="Assumed: A10 only the two voluptuous applications inside ensure_text_inputs (Schema([str])(x) / Schema(str)(x): validated copy or MultipleInvalid carrying a path); termination for arbitrary input is not decidable by contracts on this code (A14). "
          "Which specific error a malformed formula provokes inside pyparsing/numpy is irrelevant to the property thanks to the handler and is not analysed.",
     design="6/C02"),
  'C13': dict(
